@@ -7,6 +7,22 @@ import "strings"
 // rules tag their obligations with it so that a violation is reported for the
 // properties that the broken construct actually serves.
 func funcProps(name string) []string {
+	ps := funcPropsBase(name)
+	// C19 (results depend on values, not encodings) is anchored in every function that aligns,
+	// scales or inspects a coefficient/exponent pair: a defect there shows up for some cohort
+	// members and not for others.
+	switch {
+	case strings.HasPrefix(name, "uint"), strings.HasPrefix(name, "Payload."), name == "parse", name == "parseNumber", name == "parseFormat",
+		strings.HasPrefix(name, "digits."), strings.HasPrefix(name, "formatArgs."), name == "Decimal.Compose", name == "Decimal.UnmarshalJSON", name == "Decimal.Scan":
+		return ps
+	}
+	if !hasProp(ps, "C19") && !(len(ps) == 1 && ps[0] == "C20") {
+		ps = append(append([]string{}, ps...), "C19")
+	}
+	return ps
+}
+
+func funcPropsBase(name string) []string {
 	kernel := []string{"C01", "C02", "C03", "C05", "C08", "C09", "C10", "C11", "C16", "C17", "C18"}
 	switch name {
 	case "Decimal.add", "Decimal.AddWithMode", "Decimal.SubWithMode", "Decimal.Add", "Decimal.Sub":
